@@ -20,6 +20,7 @@ RadiusAuthToken lists the user's real groups, BTreeSet/BTreeMap semantics.
 """
 from .lib.hir import *
 from .lib import pathcond as pc
+from .lib.ctx import relfile
 from .lib.x_sinks import (real_root, result_leaves, sites_of, pat_forces, entailed, prov_binds, deep_tokens, local_id, cond_subst,
                           pat_bound_locals, param_locals, leaf_pat, leaf_scrut, loc)
 
@@ -167,7 +168,7 @@ def run(ctx):
                       f"{what} in Module::authorise is reachable without the true outcome of self.user_in_required_groups(<that token>.groups) "
                       f"(guards {[g for g in pc.render(lits) if 'CALLSITE' not in g][:6]}): the RADIUS secret would be released to a user outside every required group",
                       **loc(auth, node))
-            ctx.sample(f"{auth['file']}:{node.get('line')} authorise :: {what} under user_in_required_groups(token.groups)")
+            ctx.sample(f"{relfile(auth['file'])}:{node.get('line')} authorise :: {what} under user_in_required_groups(token.groups)")
     ctx.floor("K3-secret", "secret-carrying sites in Module::authorise", n_in_auth, 2)
 
     # ---- K4-predicate ----------------------------------------------------------------
@@ -223,7 +224,7 @@ def run(ctx):
         ctx.check({"uuid", "spn"} <= atoms or bool(bad), "K4-predicate", pred["fn"], "atoms:uuid+spn",
                   "membership by uuid and by spn", f"only {sorted(atoms)} of (uuid, spn) are tested: members configured by the other identifier are locked out "
                   "(property: 'by UUID or SPN')", **loc(pred, l))
-        ctx.sample(f"{pred['file']}:{l.get('line')} user_in_required_groups :: any({' ∨ '.join(sorted(atoms))} ∈ required_groups)")
+        ctx.sample(f"{relfile(pred['file'])}:{l.get('line')} user_in_required_groups :: any({' ∨ '.join(sorted(atoms))} ∈ required_groups)")
 
     # ---- K4-vlan ------------------------------------------------------------------------
     root = real_root(rgc)
@@ -302,7 +303,7 @@ def run(ctx):
                       "vlan overwritten only from a matched group mapping, in list order",
                       f"assignment `{ex_s(node['l'])} = {ex_s(node['r'])[:40]}`: {problems} — the VLAN is no longer 'last mapped group of the user, else default'",
                       **loc(rgc, node))
-            ctx.sample(f"{rgc['file']}:{node.get('line')} resolve_group_configs :: vlan <- group_configs.get(item.spn).vlan inside for over parameter")
+            ctx.sample(f"{relfile(rgc['file'])}:{node.get('line')} resolve_group_configs :: vlan <- group_configs.get(item.spn).vlan inside for over parameter")
 
     # ---- K4-vlan-use -----------------------------------------------------------------------
     root = real_root(auth)
